@@ -202,7 +202,7 @@ def _init_worker():
     # address space so that ends in MemoryError, not in an exhausted machine.
     try:
         import resource
-        cap = int(os.environ.get("VP_WORKER_MEM_GB") or "6") << 30
+        cap = int(os.environ.get("VP_WORKER_MEM_GB") or "3") << 30
         resource.setrlimit(resource.RLIMIT_AS, (cap, cap))
     except Exception:
         pass
